@@ -21,6 +21,9 @@ CHECKS = {
  "C14": dict(cat="proof", tech="machine-checked proof in Coq + extracted-model/implementation correspondence through a guarded hook",
    text="6 Coq theorems: every position an editor can send (line, UTF-16 column, clamped past end of line) resolves to the same character boundary in the server's position_to_offset as in the editor's buffer; hence after every notification of every change history (incremental, full, multi-change) the server's text equals the editor's; offset->position->offset is the identity on every character boundary; the char-counting variant (the code before the repair) is refuted by a witness. Tied to trust-lsp by the --verif-exec hook (real apply_content_changes, position_to_offset, offset_to_position, ServerState open/update) on generated Unicode histories, with an independent Python UTF-16 editor as a third opinion.",
    note="Hook feature verif_hooks in trust-lsp; JSON-RPC transport glue not exercised over stdio."),
+ "C18": dict(cat="proof", tech="machine-checked proof in Coq over tables translated from the source on every run + exhaustive endpoint correspondence",
+   text="11 Coq theorems re-checked against role/dispatch/debug tables that a translator regenerates from control.rs, control/handlers/*.rs and security.rs on every run: every dispatcher request type outside a reviewed read-only list requires more than viewer for all parameter shapes; for every request string, credential and configuration a handler runs only with a sufficient role; invalid credentials get a bare 'unauthorized' when a token is configured; debug-class requests are refused while debugging is off; unknown types reach no handler; role order total/monotone; pairing is admin-gated and a claim mints at most Engineer. The gate model is tied to the real endpoint exhaustively (all request types x 8 credentials x 4 configurations x parameter shapes + garbled lines) over the unix-socket control server with state probes.",
+   note="Translator (translators/c18_roles.py) is trusted; handlers run against a stub resource; TCP/web transports share handle_request_value and are not exercised separately."),
 }
 REASON_TODO = "check not built yet (work in progress; see DESIGN.md §5 order of work)"
 NA = {}
